@@ -231,8 +231,30 @@ def cmpOperate (op : BinOp) (a b : Int) : Bool :=
 
 def strEq (op : BinOp) (a b : List Nat) : Bool := if op == .eq then a == b else a != b
 
+/-- element type of an array literal: the first of the distinct element types, in order of first occurrence, every
+element is coercible to -/
+def pickElemTy (vs : List TE) : List Ty → R TE
+  | [] => throw (.tc "Array type is unresolvable")
+  | t :: rest =>
+    if isArr t then throw (.tc "Nested arrays are unsupported")
+    else if t == .empty then throw (.tc "Array elements cannot be empty")
+    else if coercibleAll vs t then pure (.arrlit vs (.arr t true) false)
+    else pickElemTy vs rest
+
+/-- distinct types of the values, in order of first occurrence -/
+def distinctTys (vs : List TE) : List Ty :=
+  vs.foldl (fun acc v => if acc.contains (typeOf v) then acc else acc ++ [typeOf v]) ([] : List Ty)
+
+/-- the implicit casts of the arguments of a call to the parameter types of the chosen overload -/
+def coerceArgs : List TE → List Ty → R (List TE)
+  | a :: as, t :: ts => do
+    let c ← coerce a t
+    let cs ← coerceArgs as ts
+    pure (c :: cs)
+  | _, _ => pure []
+
 mutual
-partial def tcExpr (env : Env) : PExpr → R TE
+def tcExpr (env : Env) : PExpr → R TE
   | .int v => pure (.intv v false true)
   | .char b => pure (.intv b true true)
   | .str bs => pure (.strv bs)
@@ -260,26 +282,17 @@ partial def tcExpr (env : Env) : PExpr → R TE
     if !(isArr st || st == .string) then throw (.tc "Must be array or string")
     pure (.len src)
   | .call n fl args => do
-    let as ← args.mapM (tcExpr env)
+    let as ← tcExprs env args
     let cands := env.funcs.filter (fun f => f.name == n && f.fl == fl)
     match resolveCall cands as with
     | none => throw (.tc "No matching function")
     | some f => do
-      let cs ← (List.zip as f.ptys).mapM (fun (a, t) => coerce a t)
+      let cs ← coerceArgs as f.ptys
       pure (.call n fl cs f.ptys f.ret)
   | .arrlit items =>
     if items.isEmpty then pure (.arrlit [] (.arr .empty true) false) else do
-    let vs ← items.mapM (tcExpr env)
-    -- candidate element types: distinct types in order of first occurrence
-    let tys := vs.foldl (fun acc v => if acc.contains (typeOf v) then acc else acc ++ [typeOf v]) ([] : List Ty)
-    let rec pick : List Ty → R TE
-      | [] => throw (.tc "Array type is unresolvable")
-      | t :: rest =>
-        if isArr t then throw (.tc "Nested arrays are unsupported")
-        else if t == .empty then throw (.tc "Array elements cannot be empty")
-        else if coercibleAll vs t then pure (.arrlit vs (.arr t true) false)
-        else pick rest
-    pick tys
+    let vs ← tcExprs env items
+    pickElemTy vs (distinctTys vs)
   | .un op e => do
     let a ← tcExpr env e
     match op with
@@ -357,6 +370,14 @@ partial def tcExpr (env : Env) : PExpr → R TE
     let b ← tcExpr env r
     let b ← coerce b t
     if isPrimitive a && isPrimitive b then pure a else pure (.spec a b)
+
+/-- the expressions of a list, left to right; the first error wins -/
+def tcExprs (env : Env) : List PExpr → R (List TE)
+  | [] => pure []
+  | e :: rest => do
+    let t ← tcExpr env e
+    let ts ← tcExprs env rest
+    pure (t :: ts)
 end
 
 end HidVerif.Hid.TC
